@@ -518,9 +518,12 @@ func rulePEEK1(c *Ctx) {
 		}
 	}
 	sort.Slice(fs, func(i, j int) bool { return fs[i].Pos() < fs[j].Pos() })
-	for _, f := range fs {
+	// needsZero: helpers that assign prevEnd without resetting the peek cache themselves;
+	// every call to one must happen where peekPos is known to be zero.
+	needsZero := map[*types.Func]bool{}
+	count := true
+	analyse := func(f *FuncInfo, entryZero tri) (badErr, badEnd string, readsErr, storesEnd bool) {
 		info := f.Info()
-		readsErr, storesEnd := false, false
 		InspectNoLit(f.Body(), func(n ast.Node) bool {
 			if e, ok := n.(ast.Expr); ok && SelField(info, e) == peekErr {
 				readsErr = true
@@ -534,8 +537,20 @@ func rulePEEK1(c *Ctx) {
 				}
 			}
 		}
+		callsHelper := false
+		InspectNoLit(f.Body(), func(n ast.Node) bool {
+			if call, ok := n.(*ast.CallExpr); ok {
+				if cf := Callee(info, call); cf != nil && needsZero[cf] {
+					callsHelper = true
+				}
+			}
+			return true
+		})
+		if callsHelper {
+			storesEnd = true
+		}
 		if !readsErr && !storesEnd {
-			continue
+			return
 		}
 		type st struct {
 			pending bool // a cached peekErr has been taken on this path and not yet cleared
@@ -555,7 +570,6 @@ func rulePEEK1(c *Ctx) {
 			}
 			return true
 		})
-		badErr, badEnd := "", ""
 		fl := &Flow[st]{Fn: f}
 		fl.Node = func(n ast.Node, s st) []st {
 			switch x := n.(type) {
@@ -564,7 +578,9 @@ func rulePEEK1(c *Ctx) {
 				for _, r := range x.Rhs {
 					if mentionsField(info, r, peekErr) {
 						s.pending = true
-						nTake++
+						if count {
+							nTake++
+						}
 					}
 				}
 				if len(x.Lhs) == len(x.Rhs) {
@@ -580,7 +596,9 @@ func rulePEEK1(c *Ctx) {
 							}
 						}
 						if isFieldSel(info, l, prevEnd) && x.Tok == token.ASSIGN {
-							nStore++
+							if count {
+								nStore++
+							}
 							if s.zero != triYes && badEnd == "" {
 								badEnd = "prevEnd assigned at " + p.Position(x.Pos()) + " on a path where peekPos is not known to be zero (a stale peek result would survive the read)"
 							}
@@ -597,6 +615,9 @@ func rulePEEK1(c *Ctx) {
 			// calls that reset or set the cache
 			for _, call := range CallsIn(n) {
 				if cf := Callee(info, call); cf != nil {
+					if needsZero[cf] && s.zero != triYes && badEnd == "" {
+						badEnd = "prevEnd assigned through " + cf.Name() + " at " + p.Position(call.Pos()) + " on a path where peekPos is not known to be zero (a stale peek result would survive the read)"
+					}
 					qn := QualName(cf)
 					if qn == "jsontext.(*decoderState).PeekKind" || qn == "jsontext.(*decoderState).CountNextDelimWhitespace" {
 						s.zero = triUnknown
@@ -611,7 +632,9 @@ func rulePEEK1(c *Ctx) {
 				if isFieldSel(info, be.X, peekErr) && IsNilIdent(info, be.Y) {
 					st1, st2 := s, s
 					st1.pending = true
-					nTake++
+					if count {
+						nTake++
+					}
 					if be.Op == token.NEQ {
 						return []st{st1}, []st{st2}
 					}
@@ -644,7 +667,48 @@ func rulePEEK1(c *Ctx) {
 			}
 			return []st{s}, []st{s}
 		}
-		fl.Run(st{})
+		fl.Run(st{zero: entryZero})
+		return
+	}
+	// round 1: find helpers (fail on their own, pass when entered with a reset cache, never touch peekPos)
+	for round := 0; round < 3; round++ {
+		grew := false
+		for _, f := range fs {
+			if f.Obj == nil || needsZero[f.Obj] {
+				continue
+			}
+			mentions := false
+			InspectNoLit(f.Body(), func(n ast.Node) bool {
+				if e, ok := n.(ast.Expr); ok && SelField(f.Info(), e) == peekPos {
+					mentions = true
+				}
+				return !mentions
+			})
+			if mentions || ast.IsExported(f.Obj.Name()) {
+				continue
+			}
+			_, badEnd, _, storesEnd := analyse(f, triUnknown)
+			count = false
+			if storesEnd && badEnd != "" {
+				if _, badEnd2, _, _ := analyse(f, triYes); badEnd2 == "" && len(callersOf(p, f.Obj)) > 0 {
+					needsZero[f.Obj] = true
+					grew = true
+				}
+			}
+		}
+		count = false
+		if !grew {
+			break
+		}
+	}
+	count = true
+	nTake, nStore = 0, 0
+	for _, f := range fs {
+		entry := triUnknown
+		if f.Obj != nil && needsZero[f.Obj] {
+			entry = triYes
+		}
+		badErr, badEnd, readsErr, storesEnd := analyse(f, entry)
 		if readsErr {
 			c.Oblige("peekerr-cleared:"+f.Name, f.Pos(), badErr == "", badErr)
 		}
@@ -665,4 +729,25 @@ func mentionsField(info *types.Info, e ast.Node, f *types.Var) bool {
 		return !found
 	})
 	return found
+}
+
+// callersOf lists the repo functions that contain a static call to fn.
+func callersOf(p *Program, fn *types.Func) []*FuncInfo {
+	var out []*FuncInfo
+	for _, f := range p.FuncsIn("json", "jsontext", "v1") {
+		if f.Body() == nil {
+			continue
+		}
+		found := false
+		InspectNoLit(f.Body(), func(n ast.Node) bool {
+			if call, ok := n.(*ast.CallExpr); ok && Callee(f.Info(), call) == fn {
+				found = true
+			}
+			return !found
+		})
+		if found {
+			out = append(out, f)
+		}
+	}
+	return out
 }
